@@ -850,7 +850,14 @@ def run(chk, p, t):
         C14.rule_r4(chk, p, t, rid="C02.R9")
         C14.rule_r6(chk, p, t, rid="C02.R10")
 
-    steps = [("C02.R1", rule_r1), ("C02.R2", rule_isvisible), ("C02.R5", rule_r5), ("C02.R6", rule_r6), ("C02.R7", rule_r7), ("C02.R8", rule_r8)]
+    def rule_r11(chk, p, t):
+        # the reported measurement equals the true geometry: range / azimuth / elevation / range rate are the exact
+        # recoveries of the spherical model the SEZ vector is defined by (shared instance of C04.R10)
+        from rules import C04
+
+        C04.rule_r10(chk, p, t, rid="C02.R11", parts=("measurement",))
+
+    steps = [("C02.R1", rule_r1), ("C02.R2", rule_isvisible), ("C02.R5", rule_r5), ("C02.R6", rule_r6), ("C02.R7", rule_r7), ("C02.R8", rule_r8), ("C02.R11", rule_r11)]
     for rid, fn in steps:
         if chk.only_rule is not None and chk.only_rule not in (rid, "C02.R3", "C02.R4") and not (rid == "C02.R8" and chk.only_rule in ("C02.R9", "C02.R10")):
             continue
